@@ -50,8 +50,22 @@ def main(argv):
             res.capped = res.capped or was
     else:
         res = engine.run_pool(mod.__name__, tasks, deadline)
+    bfs_cov = None
+    bfs_depth = getattr(mod, 'BFS', {}).get(tier)
+    if os.environ.get('FBMC_BFS_DEPTH'):
+        bfs_depth = int(os.environ['FBMC_BFS_DEPTH'])
+    if bfs_depth:
+        from . import bfs
+        bfs_cov = bfs.run(prop, mod.BFS_CLAUSES, bfs_depth, deadline, res)
     wall = time.time() - t0
     cov = mod.coverage(res, tier)
+    if bfs_cov:
+        cov.update(bfs_cov)
+        cov['states'] = cov.get('states', 0) + bfs_cov['bfs_distinct_states']
+        tr = sum(l['transitions'] for l in bfs_cov['bfs_levels'])
+        cov['transitions'] = cov.get('transitions', 0) + tr
+        if 'traces_validated_against_impl' in cov:
+            cov['traces_validated_against_impl'] += tr
     if spaces_done is not None:
         cov['spaces_completed'] = spaces_done
         cov['time_cap_s'] = round(deadline - t0)
